@@ -60,11 +60,13 @@ void module_constructor(const char name[])
     vlog("ctor-end");
 }
 
+#ifndef VH_NO_POST_INIT      /* the second build of this file is a module without the optional post-init entry point */
 void module_post_init(struct module *self)
 {
     (void)self;
     vlog("post-init");
 }
+#endif
 
 void module_destructor(void)
 {
